@@ -8,6 +8,7 @@ CONSTANTS
   DeltasP = {0, 1}
   DFs = {1, 2}
   MaxYields = 3
+  PsiBegins <- PsiBeginsQ
 INVARIANT InBandNonNegative
 INVARIANT HistoryInvariant
 CHECK_DEADLOCK FALSE
